@@ -5,13 +5,17 @@ namespace CaddyModel.Gen
     computed from, an http.Request / http.Header / http.Response / cookies (typed scan, go/types):
     (package, function, field key, kind). kind = `wrapped` (LoggableHTTPRequest/LoggableHTTPHeader with credentials
     off by default), `wrappedcred:<expr>` (the ShouldLogCredentials expression), `headerget:<name>` (a single
-    named header value), `raw:<type>` (anything else). -/
+    named header value), `viavar:<kind>:<helper>` (a local variable assigned from header material, one data-flow step),
+    `raw:<type>` (anything else). -/
 def logSites : List (String × String × String × String) := [
   ("caddyhttp", "ServeHTTP", "request", "wrappedcred:server-flag"),
   ("caddyhttp", "logRequest", "resp_headers", "wrappedcred:server-flag"),
   ("fastcgi", "RoundTrip", "request", "wrapped-value"),
   ("fastcgi", "RoundTrip", "request", "wrapped-value"),
   ("push", "ServeHTTP", "push_headers", "wrappedcred:server-flag"),
+  ("reverseproxy", "handleUpgradeResponse", "backend_upgrade", "viavar:raw:net/http.Header:call:upgradeType"),
+  ("reverseproxy", "handleUpgradeResponse", "backend_upgrade", "viavar:raw:net/http.Header:call:upgradeType"),
+  ("reverseproxy", "handleUpgradeResponse", "requested_upgrade", "viavar:raw:net/http.Header:call:upgradeType"),
   ("reverseproxy", "reverseProxy", "headers", "wrappedcred:server-flag"),
   ("reverseproxy", "reverseProxy", "request", "wrappedcred:server-flag"),
   ("rewrite", "ServeHTTP", "request", "wrapped")
@@ -21,6 +25,28 @@ def logSites : List (String × String × String × String) := [
     request/response/header material outside the HTTP server's access, error and reverse-proxy debug logs -/
 def logSitesElsewhere : List (String × String × String × String) := [
   ("caddy", "ServeHTTP", "headers", "raw:net/http.Header")
+]
+
+/-- census of EVERY zap field constructor call under modules/caddyhttp/...: calls = classified (at least one entry in
+    logSites) + plain (arguments of string / number / bool / duration / time / error / []string type) + opaque (listed below) -/
+def logFieldCalls : Nat := 176
+def logFieldClassified : Nat := 11
+def logFieldPlain : Nat := 153
+
+/-- fields whose argument is an object / interface / marshaler the typed scan cannot see into: (package, function, key, constructor:type) -/
+def logOpaqueFields : List (String × String × String × String) := [
+  ("caddyhttp", "automaticHTTPSPhase1", "http", "Reflect:*caddyhttp.App"),
+  ("caddyhttp", "automaticHTTPSPhase1", "tls", "Reflect:*caddytls.TLS"),
+  ("caddyhttp", "logTrace", "module", "Any:caddyhttp.MiddlewareHandler"),
+  ("fastcgi", "RoundTrip", "env", "Object:fastcgi.loggableEnv"),
+  ("fastcgi", "RoundTrip", "env", "Object:fastcgi.loggableEnv"),
+  ("logging", "ServeHTTP", "h.Key", "Any:any"),
+  ("reverseproxy", "NewTransport", "header", "Any:*proxyproto.Header"),
+  ("reverseproxy", "NewTransport", "header", "Any:*proxyproto.Header"),
+  ("reverseproxy", "activeHealthChecker", "error", "Any:interface{}"),
+  ("reverseproxy", "countFailure", "error", "Any:interface{}"),
+  ("reverseproxy", "doActiveHealthCheckForAllHosts", "error", "Any:interface{}"),
+  ("reverseproxy", "init", "error", "Any:interface{}")
 ]
 
 /-- the typed scan loaded and type-checked every package without error -/
